@@ -111,7 +111,7 @@ func (c06) Plan(tier string, seed int64) []core.Scenario {
 	}
 	// reverse calls on a re-established connection, cancelled after handlers that belong to the old connection finished
 	for i := 0; i < 4; i++ {
-		out = append(out, core.Sc("stale-reverse-cancel").WithN("fk", i%2).WithN("old", 1+i%3).WithN("order", i/2))
+		out = append(out, core.Sc("stale-reverse-cancel").WithN("fk", i%2).WithN("old", 1+i%3).WithN("order", i/2).WithN("noping", i%2))
 	}
 	for i := range out {
 		out[i].Seed = seed*15485863 + int64(i)
@@ -780,7 +780,11 @@ func (c06) staleReverseCancel(sc core.Scenario, r *core.R) {
 	nOld := sc.I("old")
 	env := NewEnv(EnvOpt{Rev: true})
 	defer env.Shutdown()
-	c, err := env.NewClient(ClientOpt{RevIdent: "A", Opts: []jsonrpc.Option{jsonrpc.WithReconnectBackoff(5*time.Millisecond, 20*time.Millisecond)}})
+	copts := []jsonrpc.Option{jsonrpc.WithReconnectBackoff(5*time.Millisecond, 20*time.Millisecond)}
+	if sc.I("noping") == 1 {
+		copts = append(copts, jsonrpc.WithPingInterval(0))
+	}
+	c, err := env.NewClient(ClientOpt{RevIdent: "A", Opts: copts})
 	if err != nil {
 		r.Inconclusive("client: %v", err)
 		return
